@@ -237,3 +237,17 @@ Proof.
     apply In_receivers_of. right. exists P, Q, k. subst. split; [reflexivity|]. split; [reflexivity|].
     apply In_conn_links. tauto.
 Qed.
+
+(* ---- the factory kind matters only for pairs that involve profiles ---------------------------------------- *)
+Lemma supported_factory_kind_l c k x m E R :
+  lookup_conn k (conns c) = Some (x, m) ->
+  (E < 3 -> R < 3 ->
+   supported c k E R = existsb (fun p => Nat.eqb (fst p) E && Nat.eqb (snd p) R) m) /\
+  (x = false -> supported c k E R = true -> E < 3 /\ R < 3).
+Proof.
+  intros L. unfold supported. rewrite L. split.
+  - intros HE HR. apply Nat.ltb_lt in HE. apply Nat.ltb_lt in HR. rewrite HE, HR. simpl.
+    rewrite orb_true_r, andb_true_r. reflexivity.
+  - intros -> H. simpl in H. rewrite !andb_true_iff in H. destruct H as [_ [HE HR]].
+    apply Nat.ltb_lt in HE. apply Nat.ltb_lt in HR. tauto.
+Qed.
